@@ -14,6 +14,7 @@ import GIV.Model.ScriptCmds
 import GIV.Lemmas.TsRun
 import GIV.Lemmas.TsRunUpdate
 import GIV.Lemmas.TsRunCmds
+import GIV.Lemmas.TsRunCmdsUpdate
 import GIV.Lemmas.TxtarQuote
 
 namespace GIV.C16
@@ -65,7 +66,7 @@ example : doCmp ⟨true, true, false, bs "new\n", bs "old\n", some (bs "g")⟩ =
 
 /-- … and without a recorded update the script file is not written at all (not even reformatted). -/
 theorem no_update_no_write (v : Verdict) (file : Bytes) (a : Archive) : finish v file a [] = (v, file) := by
-  have : Gen.TsRun.applyNoopWhenEmpty = true := rfl
+  have : Gen.TsRunUpdate.applyNoopWhenEmpty = true := rfl
   simp [finish, this]
 
 /-- `ts.scriptUpdates` is a map: the last content recorded for a name is the one that is applied. -/
@@ -110,12 +111,9 @@ theorem update_makes_pass (c : Config σ) (s s' : σ) (script file : Bytes) (a a
     (hok : okFold c s (splitScript script) = some s')
     (happly : applyUpdates a u = .ok a') (hu : u ≠ []) :
     finish (run c s script).verdict file a u = (.pass, format a') := by
-  have hpass : (run c s script).verdict = .pass := by
-    unfold run
-    rw [verdict_pass_iff_passes ⟨rfl, rfl, rfl, rfl, rfl⟩, passes_iff]
-    exact Or.inl ⟨s', hok⟩
+  have hpass : (run c s script).verdict = .pass := runLines_okFold_pass c _ 0 s s' hok
   have hne : u.isEmpty = false := by cases u <;> simp_all
-  have : Gen.TsRun.applyWritesFormat = true := rfl
+  have : Gen.TsRunUpdate.applyWritesFormat = true := rfl
   simp [finish, hne, happly, hpass, this]
 
 /-- The concrete `cmp` of the model under UpdateScripts: a mismatch against an archive entry ends
@@ -145,12 +143,11 @@ theorem updates_only_by_cmp (p : Cmds.P) (name : Bytes) (f : Cmd Cmds.St)
         ∃ name1 name2 abs2 n text1, args = [name1, name2] ∧ Cmds.resolve s.cd name2 = some abs2 ∧
           s.scriptFiles.lookup abs2 = some n ∧ Cmds.readArg s name1 = .ok text1 ∧
           f failed s neg args = ({ s with updates := record s.updates n text1 }, .ok))) := by
-  rw [lookup_eq ⟨rfl, rfl, rfl, rfl, rfl, rfl, rfl, rfl, rfl, rfl, rfl, rfl⟩] at hl
-  simp only [Cmds.config] at hl
-  split at hl
-  · rename_i g hg
-    simp at hl
-    subst hl
+  rcases lookup_cases _ _ _ hl with hg | hl
+  · simp only [Cmds.config] at hg
+    revert hg
+    generalize f = g
+    intro hg
     by_cases h3 : name = lit "skip"
     · rw [Cmds.builtin_skip p name g hg h3]
       exact ⟨(Cmds.skip_updates failed s neg args).2, Or.inl (Cmds.skip_updates failed s neg args).1⟩
@@ -190,7 +187,8 @@ theorem updates_only_by_cmp (p : Cmds.P) (name : Bytes) (f : Cmd Cmds.St)
             simp at this
         · have := Cmds.builtin_tame p name g hg h1 h2 h3 failed s neg args
           exact ⟨this.2.2, Or.inl this.2.1⟩
-  · have := Cmds.custom_tame p name f hl failed s neg args
+  · simp only [Cmds.config] at hl
+    have := Cmds.custom_tame p name f hl failed s neg args
     exact ⟨this.2.2, Or.inl this.2.1⟩
 
 /-- An update that needs quoting and cannot be quoted (no final newline, or not UTF-8) fails the run
@@ -200,7 +198,7 @@ theorem update_unquotable_fails (v : Verdict) (file : Bytes) (a : Archive) (u : 
     finish v file a u = (.fail, file) ∧
     ∃ f ∈ a.files, ∃ c, lookupU u f.name = some c ∧ needsQuote c = some true ∧ ∃ e, quote c = .error e := by
   have hne : u.isEmpty = false := by cases u <;> simp_all
-  have hcaught : Gen.TsRun.updateFatalCaught = true := rfl
+  have hcaught : Gen.TsRunUpdate.updateFatalCaught = true := rfl
   refine ⟨by simp [finish, hne, h, hcaught], ?_⟩
   obtain ⟨f, hf, hfe⟩ := applyFiles_error u _ _ (applyUpdates_error h)
   obtain ⟨c, hc, hce⟩ := applyFile_error hfe
